@@ -12,7 +12,13 @@ Ys == { <<0, 0>>, <<3, -2>>, <<-4, 5>> }
 ProblemsQ == { Pr(xx, ms, y, mask, tol2, maxit, km) :
                  xx \in Xs(3) \cup Xs(4), ms \in MotifSets, y \in Ys, mask \in {{0, 1}, {1}, {0}},
                  tol2 \in {0, 1, 4, 8}, maxit \in {0, 1, 2, Unlimited}, km \in {1, 2} }
+\* a smaller family under the asymmetric loss (the order of loss(y, y_hat) matters)
+ProblemsA == { [x |-> xx, motifs |-> ms, y |-> y, mask |-> mask, tol2 |-> tol2, maxit |-> maxit, km |-> km, loss |-> "asym"] :
+                 xx \in Xs(3) \cup Xs(4), ms \in { << <<1>> >>, << <<0>>, <<3, 1>> >>, << <<3>>, <<2>> >> }, y \in Ys,
+                 mask \in {{0, 1}, {1}}, tol2 \in {0, 1}, maxit \in {1, Unlimited}, km \in {1, 2} }
 ProblemsT == { Pr(xx, ms, y, mask, tol2, maxit, km) :
                  xx \in Xs(3) \cup Xs(4) \cup Xs(5) \cup Xs(6), ms \in MotifSets, y \in Ys \cup { <<1, 7>>, <<-6, -6>> },
                  mask \in {{0, 1}, {1}, {0}}, tol2 \in {0, 1, 2, 4, 6, 8, 16}, maxit \in {0, 1, 2, 3, Unlimited}, km \in {1, 2, 3} }
+ProblemsQA == ProblemsQ \cup ProblemsA
+ProblemsTA == ProblemsT \cup ProblemsA
 =============================================================================
